@@ -140,6 +140,35 @@ def check_consolidate(ctx, c):
     return True
 
 
+def check_no_aliasing(ctx, c):
+    """A tag built from another tag's attribute map (or from a dict) has its own map; the source is not modified."""
+    from ..attrprog import _d, _dup_free
+
+    wit = {"case": c, "scenario": "attribute map reused as constructor argument"}
+    src, _ = run_case(c)
+    d = {"data-own": "1", "class": "dc"}
+    d_before = dict(d)
+    before = [(k, type(v).__name__, str(v)) for k, v in src.attrs.items()]
+    mk = ctx.rng.choice([lambda a: ht.Tag("y", a), lambda a: ht.div(a), lambda a: ht.Tag("y", a, "child"), lambda a: ht.span(a, d)])
+    b = mk(src.attrs)
+    ctx.count("oracle.aliasing")
+    if b.attrs is src.attrs:
+        ctx.violation("attrs-map-aliased", "a tag built from another tag's .attrs shares the very same map object", wit)
+        return False
+    b.attrs["zz-new"] = "1"
+    b.attrs.update({"class": "changed"}, id="other")
+    b.add_class("q").add_style("k:v;")
+    if b.attrs:
+        b.attrs.pop(next(iter(b.attrs)))
+    if [(k, type(v).__name__, str(v)) for k, v in src.attrs.items()] != before:
+        ctx.violation("attrs-map-aliased", "changing the attributes of a tag built from another tag's .attrs changed the other tag", wit)
+        return False
+    if d != d_before:
+        ctx.violation("attrs-argument-modified", "a dict passed as attribute argument was modified", wit)
+        return False
+    return True
+
+
 def rand_value(rng):
     r = rng.random()
     if r < 0.35:
@@ -215,6 +244,8 @@ def run(ctx):
         check_case(ctx, c)
         if rng.random() < 0.3:
             check_consolidate(ctx, c)
+        if rng.random() < 0.15:
+            ctx.guard(check_no_aliasing, ctx, c, witness={"case": c})
         ctx.case(c, nontrivial=collisions(c))
         for op in c["ops"]:
             ctx.state("later_ops", op["op"])
